@@ -896,6 +896,26 @@ theorem installers_separate :
 example : installFilesTargets "ADF11prc" = ["install_adf11prc"]
     ∧ installerWrites "install_adf11prc" = some "update_cx_power_rates(repository_path)" := by decide
 
+/-! ### which copy of the file is parsed (`_locate_adas_file`) -/
+
+/-- candidate list → first available -/
+theorem locate_first_available (d a ia ic : Bool) :
+    locateAdasFile d a ia ic = (locateCandidates d a).find? (placeAvailable ia ic) := by
+  cases d <;> cases a <;> cases ia <;> cases ic <;> rfl
+
+/-- **the file the caller points to wins**: when `adas_path` is given and holds the file, that copy is parsed —
+whatever `download` says and whatever sits in the repository's download cache -/
+theorem adas_path_wins (d ic : Bool) : locateAdasFile d true true ic = some .adas := by
+  cases d <;> cases ic <;> rfl
+
+/-- the cache and the network are only consulted with `download=True`; the cache copy is preferred to a download; a file
+found nowhere without `download` is reported as missing -/
+theorem locate_download_rules (a ia ic : Bool) :
+    (locateAdasFile false a ia ic = if a && ia then some .adas else none)
+    ∧ (a && ia = false → locateAdasFile true a ia true = some .cache)
+    ∧ (a && ia = false → locateAdasFile true a ia false = some .network) := by
+  cases a <;> cases ia <;> cases ic <;> simp [locateAdasFile]
+
 /-- the classes that the model shifts by −1 are exactly the strings listed in `_notation_adf11_adas2cherab` -/
 theorem charge_list_pinned (c : Class11) :
     (c.chargeCorrection = -1) ↔ c.code ∈ (Cherab.Gen.AdfLex.membershipLists.lookup "install.py:_notation_adf11_adas2cherab:in1").getD [] := by
